@@ -256,7 +256,7 @@ I8(h, m) ==
         valid == wf \ invalid
         v1 == [v0 EXCEPT !.dq = @ \cup ((wrong \cup invalid) \cap Op(v0)),
                          !.vpts = valid,
-                         !.pts = IF "F1" \in Fixes THEN okf ELSE [s \in valid |-> okf[s]],
+                         !.pts = IF "F7" \in Fixes THEN okf ELSE [s \in valid |-> okf[s]],
                          !.snap = Op(v0), !.rcv = <<>>]
     IN [mem |-> v1, out |-> << Msg(h, h, "acc8", {[id |-> a, ok |-> TRUE] : a \in invalid}) >>]
 
